@@ -629,6 +629,31 @@ pub fn c10_case(ctx: &mut Ctx, rng: &mut Rng) {
                 Ok(Some(d2)) => {
                     accepted += 1;
                     cur = Some(d2);
+                    if rng.chance(0.5) {
+                        // a user CSV on the mapped dictionary (the case's own, possibly edited one, or a row whose
+                        // id lies just outside the connector): accepted or rejected, never a panic
+                        let csv: Vec<u8> = match &fs.user {
+                            Some(u) if rng.chance(0.5) => u.clone(),
+                            _ => {
+                                if rng.chance(0.5) {
+                                    format!("zz,{},{},1,X\n", nl + rng.below(3), rng.below(nr)).into_bytes()
+                                } else {
+                                    format!("zz,{},{},1,X\n", rng.below(nl), nr + rng.below(3)).into_bytes()
+                                }
+                            }
+                        };
+                        hist.push(format!("user csv {:?}", String::from_utf8_lossy(&csv)));
+                        let dd = cur.take().unwrap();
+                        ctx.eval();
+                        match guarded(move || dd.reset_user_lexicon_from_reader(Some(csv.as_slice())).ok()) {
+                            Ok(Some(d3)) => cur = Some(d3),
+                            Ok(None) => ctx.bucket("user_csv_rejected_on_mapped_dictionary"),
+                            Err(p) => {
+                                ctx.violation("user_lexicon_loader_panicked", &format!("C10:user_after_map:{}", panic_class(&p)), format!("history {:?}: {p}", hist), cj(String::new()));
+                                return;
+                            }
+                        }
+                    }
                 }
                 Ok(None) => {}
                 Err(p) => {
